@@ -1,4 +1,6 @@
 import NitroVerif.Lemmas.Shape
+import NitroVerif.Lemmas.ShapeInv
+import NitroVerif.Lemmas.TypeNoPanic
 /-!
 # C08 — no input text can make the toolchain panic (parser part: grammar ⇒ builder preconditions)
 
@@ -47,6 +49,55 @@ theorem parts_no_panic (e : Entry) (he : e ∈ builderTable) (items : List Item)
   rw [hp] at h
   rw [matchParts_ok items cs items.length]
   exact h
+
+/-- `run_children_in_shape`: for ANY grammar table, depth bounds, rule, atomicity and cursor — whatever a rule call
+    of the interpreter returns (outside lookahead), the rules of the returned top-level pairs are a word of the
+    computed shape of the call, and every pair in the returned trees, at any depth, has children in `ruleShape` of
+    its own rule. (Induction on the interpreter's depth bound over its four mutually recursive functions.) -/
+theorem run_children_in_shape (g : G) (fuel F : Nat) (r : RuleId) (at_ : Atomicity) (tr : Tr) (c : Cur)
+    (tr' : Tr) (c' : Cur) (ps : List Pair) (h : callRule g fuel r at_ .none tr c = (tr', .ok c' ps)) :
+    Mem (callShape g F r at_) (ps.map Pair.rule) ∧ ∀ p ∈ ps, DeepOk g p :=
+  ⟨(memInv g fuel).cr F _ _ _ _ _ _ _ h, (deepInv g fuel).cr _ _ _ _ _ _ _ h⟩
+
+/-- every positional matcher the builders apply to pairs of rule `r` accepts the child-rule word `w` -/
+def MatchersAccept (r : RuleId) (w : List RuleId) : Prop :=
+  ∀ e ∈ builderTable, e.subject = r → e.pat.matches w = true
+
+/-- `parse_no_panic`, matcher part, for ALL inputs: in the pair tree of a successful parse of ANY text with the
+    generated grammar (any start rule, any depth bound), at every pair of the tree every `parts!` / `only_child` (+
+    dispatch arms) / `all_children` / hand-written loop that the builders apply to pairs of that rule succeeds.
+    This is the kernel-checked "the builders' matchers never panic on anything the grammar produces":
+    `run_children_in_shape` + `accepts_sound` + `builders_total` (the latter re-evaluated over the regenerated
+    grammar and patterns on every run). -/
+theorem parsed_pairs_match_patterns (fuel : Nat) (r : RuleId) (input : List Char) (ps : List Pair)
+    (h : Peg.parse gList fuel r input = .pairs ps) : ∀ p ∈ ps, Deep MatchersAccept p := by
+  intro p hp
+  refine Deep.mono ?_ (parse_deepOk gList fuel r input ps h p hp)
+  intro r w hw e he hr
+  exact builders_match e he w (hr ▸ hw)
+
+/-- the same, phrased on the builder model: at every pair of a parse tree, `matchParts` with any `parts!` pattern
+    extracted for the pair's rule returns `ok` -/
+theorem parsed_pairs_parts_ok (fuel : Nat) (r : RuleId) (input : List Char) (ps : List Pair)
+    (h : Peg.parse gList fuel r input = .pairs ps) :
+    ∀ p ∈ ps, Deep (fun r w => ∀ e ∈ builderTable, e.subject = r → ∀ items, e.pat = .parts items →
+      (partsAuto items.length).ok items w = true) p := by
+  intro p hp
+  refine Deep.mono ?_ (parsed_pairs_match_patterns fuel r input ps h p hp)
+  intro r w hw e he hr items hpat
+  have := hw e he hr
+  rw [hpat] at this
+  exact this
+
+/-- A closed instance of `parse_no_panic`: for ANY input text, any start rule and depth bounds, `build_type`
+    (builder/type.rs: four `only_child` sites and two dispatches) applied to ANY `Type` pair anywhere in the parse
+    tree returns a type or hits the model's own depth bound — it never reaches one of its panic arms. -/
+theorem buildType_no_panic (fuel : Nat) (r : RuleId) (input : List Char) (ps : List Pair)
+    (h : Peg.parse gList fuel r input = .pairs ps) (ctx : Ctx) (bfuel : Nat) :
+    ∀ q ∈ flatList ps, q.rule = R.«Type» → NoPanic (buildType ctx bfuel q) := by
+  intro q hq hr
+  obtain ⟨p, hp, hqp⟩ := mem_flatList hq
+  exact (buildType_noPanic ctx bfuel).1 q ((parse_deepOk gList fuel r input ps h p hp).sub q hqp) hr
 
 example : ∃ e ∈ builderTable, ∃ items, e.pat = .parts items ∧ items.length = 2 :=
   ⟨builderTable[4], List.getElem_mem _, _, rfl, rfl⟩
@@ -121,18 +172,20 @@ theorem parse_steps_nested_list : ∀ n ∈ [1, 2, 3, 4, 5, 6], 2 ^ n ≤ typeSt
 /-
 OPEN — carried by K/O only (stated, not proved):
 
-theorem run_children_in_shape :
-    callRule g fuel r at_ .none tr c = (tr', .ok c' ps) → ∀ p ∈ allPairs ps,
-      Mem (ruleShape g p.rule) (p.children.map Pair.rule)
-  -- every pair the interpreter emits has children in the shape of its rule. `ruleShape` follows the case analysis
-  -- of `eval`/`callRule`/`ruleWrap` clause by clause; the induction over the mutual interpreter is not done.
-  -- Evidence instead: the driver evaluates this statement (`Shape.matchesRe`) on every pair of every text that K
-  -- parses (request `gql.shapecheck`, stream "shape" of c07/c08): a violation is a K failure.
-
 theorem parse_no_panic : ∀ input, (parseOp input).isPanic = false ∧ (parseTs input).isPanic = false
-  -- follows from run_children_in_shape + builders_match (+ the dispatch arms of Build.lean being the extracted
-  -- `onlyChild` sets, + validated_escape_decodes for the string arms). Carried by K (model = code on the outcome
-  -- of every text of the malformed stream) and O (no panic of the real parser on that stream).
+  -- PROVED above for all inputs: every positional matcher succeeds at every pair of every parse tree
+  -- (`parsed_pairs_match_patterns`), i.e. the panic classes partsExpected / onlyChildNone / onlyChildMany /
+  -- allChildren / unexpectedRule (dispatch arms) / implementsHead / implementsItem cannot occur on a pair of the
+  -- subject rule, and the `\u` arms cannot panic after validation (`validated_escape_decodes`).
+  -- For `build_type` the composition is done (`buildType_no_panic`).
+  -- NOT proved: (a) the same walk through the other ~30 builder functions of Build.lean that composes these facts
+  -- into the closed statement above (each builder is only ever handed a pair of its subject rule because the matchers check
+  -- the rules — argued, not formalised); (b) the panic sites that depend on the TEXT of a pair rather than on
+  -- its children: `str_to_operation_type` (text of an OperationType pair is a keyword), `Unknown escape sequence`
+  -- (text of EscapedCharacter), the two `split_at` (BlockStringValue ≥ 6 chars, EscapedUnicode4 ≥ 2),
+  -- `chars().next().unwrap()` (NormalStringCharacter non-empty): accounted as "constant" in
+  -- translate/sites_accounted.json, never produced on any K text. Carried by K (model = code on the outcome of
+  -- every text of the malformed stream) and O (no panic of the real parser on that stream).
 
 theorem resolveExt_total, resolveImports_total, check_total, generate_total, render_error_total, loader_total
   -- later stages: exercised by the O stream of c08.rs only (every public entry point under catch_unwind);
